@@ -25,6 +25,15 @@ let () =
           let values = if vs = "none" then None else Some (if vs = "empty" then [] else List.map of_hex (String.split_on_char ',' vs)) in
           let pairs = layout st (ex = "1") (of_hex name) values in
           print_endline ("P " ^ String.concat " " (List.map (fun (a, b) -> to_hex a ^ "=" ^ to_hex b) pairs))
+        | "params" :: rest ->
+          (* params <loc>:<name>:<id> ... // <loc>:<name>:<id> ...   ->  the ids of the collected declarations, in order *)
+          let parse t = match String.split_on_char ':' t with
+            | [l; n; k] -> { p_loc = n_of_int (int_of_string l); p_name = List.init (String.length n) (String.get n); p_payload = n_of_int (int_of_string k) }
+            | _ -> failwith "param" in
+          let rec split acc = function [] -> (List.rev acc, []) | "//" :: r -> (List.rev acc, r) | x :: r -> split (x :: acc) r in
+          let (item, ops) = split [] rest in
+          let r = collect_parameters (List.map parse item) (List.map parse ops) in
+          print_endline ("C " ^ String.concat " " (List.map (fun p -> string_of_int (int_of_n p.p_payload)) r))
         | _ -> print_endline "ERR"
       with Failure e -> print_endline ("ERR " ^ e) | Invalid_argument e -> print_endline ("ERR " ^ e))
     done
